@@ -12,6 +12,8 @@ pub struct Session {
     ctx: TransactionContext,
     logger: TransactionLogger,
     task_runner: SharedTaskRunner,
+    /// Set once COMMIT or ROLLBACK has been logged: dropping the session must not log another end.
+    ended: bool,
 }
 
 impl Session {
@@ -24,11 +26,13 @@ impl Session {
             ctx,
             logger,
             task_runner,
+            ended: false,
         }
     }
 
     pub fn commit_transaction(&mut self) -> QueryRunnerResult<()> {
         self.logger.log_commit()?;
+        self.ended = true;
         self.ctx.commit_transaction()?;
         self.logger.log_end()?;
         Ok(())
@@ -36,6 +40,7 @@ impl Session {
 
     pub fn abort_transaction(&mut self) -> QueryRunnerResult<()> {
         self.logger.log_abort()?;
+        self.ended = true;
         self.ctx.abort_transaction()?;
         self.logger.log_end()?;
         Ok(())
@@ -68,6 +73,10 @@ unsafe impl Sync for Session {}
 
 impl Drop for Session {
     fn drop(&mut self) {
-        let _ = self.abort_transaction();
+        // A transaction that was committed (or rolled back) explicitly has its COMMIT / ABORT in the
+        // log already; an ABORT appended here would make recovery undo a committed transaction.
+        if !self.ended {
+            let _ = self.abort_transaction();
+        }
     }
 }
